@@ -217,6 +217,9 @@ def cache_type(method: Method) -> Method:
     @wraps(method)
     def wrapper(self: "SchemaBuilder", *args, **kwargs):
         factory = method(self, *args, **kwargs)
+        # the type built for a flattened field has resolvers going through this field:
+        # it must neither be served to nor taken from the other uses of the class
+        flattened = getattr(self, "get_flattened", None) is not None
 
         @wraps(factory.factory)
         def name_cache(
@@ -225,6 +228,8 @@ def cache_type(method: Method) -> Method:
             if name is None:
                 tp = factory.factory(name, description)
                 return graphql.GraphQLNonNull(tp) if tp is not JSON_SCALAR else tp
+            if flattened:
+                return graphql.GraphQLNonNull(factory.factory(name, description))
             # Method is in cache key because scalar types will have the same method,
             # and then be shared by both visitors, while input/output types will have
             # their own cache entry.
@@ -619,7 +624,10 @@ class OutputSchemaBuilder(
         def resolve(obj, _):
             return partial_serialize(getattr(obj, field_name))
 
-        factory = self.visit_with_conv(field.type, field.serialization)
+        with context_setter(self):
+            # the type of the field is not part of the flattening
+            self.get_flattened = None
+            factory = self.visit_with_conv(field.type, field.serialization)
         field_schema = get_field_schema(tp, field)
         return lambda: graphql.GraphQLField(
             factory.type,
@@ -693,7 +701,11 @@ class OutputSchemaBuilder(
                     )
 
                 args[self.aliaser(param_field.alias)] = arg_thunk
-        factory = self.visit_with_conv(field.types["return"], field.resolver.conversion)
+        with context_setter(self):
+            self.get_flattened = None
+            factory = self.visit_with_conv(
+                field.types["return"], field.resolver.conversion
+            )
         field_schema = get_method_schema(tp, field.resolver)
         return lambda: graphql.GraphQLField(
             factory.type,
